@@ -1194,6 +1194,12 @@ def flags(cf):
         cf['lazy'], cf['cache'], cf['phased'], cf['select'], cf['ignore'], cf['chrom'])
 
 
+def canon_cache(files):
+    """cache files are compared as the set of their rows: the statement constrains what a later run reads back from the
+    cache (compared answer by answer), and the reader does not depend on the order of the rows"""
+    return {n: sorted(t.split('\n')) if isinstance(t, str) else t for n, t in files.items()}
+
+
 class Prop(fw.PropBase):
     ID = 'C18'
     PROPS = 'Props/C18.v'
@@ -1398,7 +1404,7 @@ class Prop(fw.PropBase):
                     j = next((j for j in range(len(got)) if j >= len(mruns) or got[j] != mruns[j]), 0)
                     dis.append({'kind': 'model-vs-impl-answers', 'case': i, 'run': j})
                 mfs = {fw.as_str(n): fw.as_str(t) for n, t in mo[i][1]}
-                if mfs != r['cache']:
+                if canon_cache(mfs) != canon_cache(r['cache']):
                     dis.append({'kind': 'model-vs-impl-cache-files', 'case': i,
                                 'model': {k: mfs[k] for k in sorted(mfs)[:3]}, 'impl': {k: r['cache'][k] for k in sorted(r['cache'])[:3]}})
                 if pre[i] and mo[i][0] != mspec[i]:
@@ -1424,7 +1430,7 @@ class Prop(fw.PropBase):
                 got = [canon_answer(r['answers'][n]) for n in idx]
                 if got != group_fold(g, k, o6[0]):
                     dis.append({'kind': 'model-vs-impl-answers (several objects)', 'group': gi, 'session': k})
-                if {fw.as_str(n): fw.as_str(t) for n, t in o6[1]} != r['caches'][k]:
+                if canon_cache({fw.as_str(n): fw.as_str(t) for n, t in o6[1]}) != canon_cache(r['caches'][k]):
                     dis.append({'kind': 'model-vs-impl-cache-files (several objects)', 'group': gi, 'session': k})
                 if [gspec[gi][n] for n in idx] != group_fold(g, k, o8):
                     dis.append({'kind': 'python-spec-vs-coq-spec (several objects)', 'group': gi, 'session': k})
